@@ -125,9 +125,11 @@ def run(tier: str, rep: Report):
     rep.cov["explanation"] = (f"all shapes with 0..{N} positional-only (3.8+), 0..{N} positional-or-keyword, 0..{N} "
                               "keyword-only parameters, *args and **kw present/absent, 4 function kinds; rendered as def / "
                               "async def / lambda with 8 docstring shapes; comprehension scopes; plus the corpus")
-    pool = Pool(SUPPORTED, per_version=4)
+    # the four workers of a version run with PYTHONHASHSEED 0..3 and every rendered signature goes to each of them
+    pool = Pool(SUPPORTED, per_version=4, hashseeds=True)
+    rep.assumptions.append("every rendered signature is decoded under PYTHONHASHSEED 0, 1, 2 and 3 (set iteration order)")
     try:
-        files = df.collect_events(rep, tier, wd, pool, {}, extra_sources=extra)
+        files = df.collect_events(rep, tier, wd, pool, {}, extra_sources=extra, extra_on_every_worker=True)
     finally:
         pool.close()
     fails = df.validate(rep, files)
